@@ -506,6 +506,14 @@ func (vc *VC) useSpecFn(name string, pkg *types.Package) {
 		params = append(params, fmt.Sprintf("(%s %s)", pn, vc.specSort(ty)))
 		env.bound[p.Name] = TV{T: Term{pn, vc.specSort(ty)}, Ty: ty}
 	}
+	// heap-dependent function: the memory arrays it reads are extra parameters
+	for _, rn := range fn.Reads {
+		srt := vc.memSortByName(rn)
+		vc.registerState(rn, srt)
+		hp := "h_" + stateSym(rn)
+		params = append(params, fmt.Sprintf("(%s %s)", hp, srt))
+		env.state[rn] = Term{hp, srt}
+	}
 	rt := vc.parseSpecType(fn.Result, pkg)
 	sym := "sf_" + sanitize(name)
 	if fn.Body == nil {
@@ -529,6 +537,32 @@ func (vc *VC) useSpecFn(name string, pkg *types.Package) {
 		kw = "define-fun-rec"
 	}
 	vc.fnDefs = append(vc.fnDefs, fmt.Sprintf("(%s %s (%s) %s %s)", kw, sym, strings.Join(params, " "), vc.specSort(rt), body.T.S))
+}
+
+// memSortByName: the sort of a memory array given its name (Mem_<key>).
+func (vc *VC) memSortByName(name string) Sort {
+	if s, ok := vc.stateSort[name]; ok {
+		return s
+	}
+	key := strings.TrimPrefix(name, "Mem_")
+	switch key {
+	case "string":
+		return ArrSort(SRef, SStr)
+	case "bool":
+		return ArrSort(SRef, SBool)
+	case "ptr", "map", "chan", "func":
+		return ArrSort(SRef, SRef)
+	case "slice":
+		return ArrSort(SRef, SSlice)
+	case "iface":
+		return ArrSort(SRef, SIface)
+	}
+	bits := map[string]int{"int": 64, "int8": 8, "int16": 16, "int32": 32, "int64": 64, "uint": 64, "uint8": 8, "uint16": 16, "uint32": 32, "uint64": 64, "uintptr": 64}
+	if b, ok := bits[key]; ok {
+		return ArrSort(SRef, vc.intSort(b))
+	}
+	specFail("unknown memory array %q", name)
+	return ""
 }
 
 // ---- memory ----
